@@ -125,7 +125,7 @@ func (e *env) evalFunc(fc *FuncCall) (Value, error) {
 		if err != nil {
 			return nil, err
 		}
-		return q.nextval(), nil
+		return q.nextvalFor(c.sess), nil
 	case "currval":
 		q, err := e.seqArg(args[0])
 		if err != nil {
@@ -150,6 +150,7 @@ func (e *env) evalFunc(fc *FuncCall) (Value, error) {
 		}
 		q.Last = new(big.Int).Set(n)
 		q.IsCalled = called
+		q.dropReservations()
 		return new(big.Int).Set(n), nil
 	case "hashtext":
 		if anyNull() {
